@@ -21,7 +21,18 @@ ENGINES = [
                         "inference, name-based argument linking (NAMELINK), "
                         "truth-test defaults against a parameter's known "
                         "domain (FALSY), loop-local variables read on a "
-                        "pass that did not set them (STALE). A rule that cannot read a construct has "
+                        "pass that did not set them (STALE), language-level "
+                        "slips (SLIPS: undefined names, missing attributes, "
+                        "call signatures, exhausted iterators, containers "
+                        "changed under iteration, late-bound closures, "
+                        "true division into integer uses, shadowed loop "
+                        "variables, catch-alls, unbound locals, cached "
+                        "mutable results, stale snapshots). Source normal "
+                        "forms are applied before any rule reads the code "
+                        "(hoisted assignment expressions, dictionary "
+                        "displays with unpacking, parallel assignments, "
+                        "struct.Struct objects, bound-method aliases, slice "
+                        "objects, numeric constants given a name). A rule that cannot read a construct has "
                         "no verdict (UNDECIDED) instead of raising an alarm"),
 ]
 
@@ -673,6 +684,57 @@ CHECKS["C19"]["text"] += (" spinn5_eth_coords lists no chip apart from its "
                           "machine reports it (R2).")
 CHECKS["C20"]["text"] += (" Numbers of a struct file are read in base 16 "
                           "when written 0x..., else base 10 (R3).")
+# rounds 9 and 10
+_GENERIC9 = (" In the same packages (SLIPS, each with a positive example "
+             "that must match on every run): every name read is bound "
+             "somewhere, every self attribute is stored somewhere in the "
+             "package, every call of a package function resolved to one "
+             "definition fits its parameter list, no one-shot iterator is "
+             "measured, indexed or traversed twice, no container changes "
+             "size under its own for loop, no stored closure reads a loop "
+             "variable, no true division feeds an integer-only use, no inner "
+             "loop clobbers an outer loop's variable that is read "
+             "afterwards, no catch-all hides errors, no local is read on a "
+             "path that passes none of its bindings, no lru_cache hands out "
+             "a mutable object its function made, no value computed from a "
+             "container before a loop is read in the loop while the loop "
+             "adds to the container; the values a package function returns "
+             "as (.. y .., .. x ..) are not unpacked under names that say "
+             "(x, y).")
+for _k in sorted(CHECKS):
+    CHECKS[_k]["text"] += _GENERIC9
+    CHECKS[_k]["technique"] += (
+        "; language-level slip analyses over the property's packages "
+        "(symtable scoping, resolved call signatures, CFG reachability of "
+        "bindings and iterator traversals)")
+    CHECKS[_k]["note"] += (
+        " A finding that only says an expected construct was not found or "
+        "a bound was not shown is withheld (UNDECIDED) when the function "
+        "delegates to helpers / methods the reference tree did not have, is "
+        "rewritten beyond 12 statements of the reference function, or when "
+        "the value concerned is one the engines could not interpret; "
+        "findings derived from what the code does are never withheld.")
+for _k in ("C08", "C11", "C13", "C15", "C16", "C19"):
+    CHECKS[_k]["text"] += (" Calls of package functions in the property's "
+                           "modules pass every argument that shares a "
+                           "parameter's name to that parameter (NAMELINK); "
+                           "no truth-test default replaces a known falsy "
+                           "value (FALSY); no loop reads a variable its "
+                           "current pass may not have set (STALE); no "
+                           "statement computes a value only to drop it.")
+CHECKS["C01"]["text"] += (" Neither ordered_covering nor _Merge.apply "
+                          "changes the aliases dictionary it is given or a "
+                          "set kept in it (C04-R4, re-run).")
+CHECKS["C04"]["text"] += (" A set popped from a shallow copy of the "
+                          "caller's aliases is not enlarged in place (R4).")
+CHECKS["C17"]["text"] += (" The minimiser's aliases argument and the sets in "
+                          "it are not changed in place (C04-R4, re-run); a "
+                          "context keeps a copy of the dictionary it is "
+                          "created with (C18-R1, re-run).")
+CHECKS["C02"]["text"] += (" The Hilbert placer's level count is "
+                          "ceil(log2(max(width, height))) (R9).")
+CHECKS["C12"]["text"] += (" No method stores None into (or deletes) an "
+                          "entry of a node's sub-trees (R3).")
 for _k, _old, _new in _AMEND:
     assert _old in CHECKS[_k]["text"], (_k, _old)
     CHECKS[_k]["text"] = CHECKS[_k]["text"].replace(_old, _new, 1)
